@@ -33,6 +33,8 @@ pub enum SOp {
     NotifyAll,
     ALoad(u8),
     AStore(u8, u8),
+    /// `while x.load(SeqCst) != v { yield_now() }` — only the main thread spins (never two spinners at once)
+    AwaitA(u8, u8),
     /// Relaxed load / store of atomic x: values only, no happens-before
     RLoad(u8),
     RStore(u8, u8),
@@ -83,7 +85,7 @@ impl SProg {
         self.ops().any(|o| f(o))
     }
     pub fn has_atomics(&self) -> bool {
-        self.has(|o| matches!(o, SOp::ALoad(_) | SOp::AStore(..) | SOp::RLoad(_) | SOp::RStore(..)))
+        self.has(|o| matches!(o, SOp::ALoad(_) | SOp::AStore(..) | SOp::RLoad(_) | SOp::RStore(..) | SOp::AwaitA(..)))
     }
     pub fn has_cells(&self) -> bool {
         self.has(|o| matches!(o, SOp::CellW(_) | SOp::CellR(_)))
@@ -511,6 +513,16 @@ impl<'a> Machine<'a> {
                 tick(&mut ns);
                 adv(&mut ns);
                 v.push((ns, true, None));
+            }
+            SOp::AwaitA(x, val) => {
+                let x = x as usize;
+                if s.atom[x] == val {
+                    let c = ns.atomvc[x];
+                    vjoin(&mut ns.vc[t], &c);
+                    tick(&mut ns);
+                    adv(&mut ns);
+                    v.push((ns, true, None));
+                }
             }
             SOp::RLoad(x) => {
                 let x = x as usize;
@@ -1209,6 +1221,11 @@ fn exec(p: &SProg, t: usize, o: &Objs, rx: Option<&loom::sync::mpsc::Receiver<u8
             SOp::NotifyAll => o.cv.notify_all(),
             SOp::ALoad(x) => res = o.atoms[x as usize].load(SeqCst) as i64,
             SOp::AStore(x, v) => o.atoms[x as usize].store(v as usize, SeqCst),
+            SOp::AwaitA(x, v) => {
+                while o.atoms[x as usize].load(SeqCst) != v as usize {
+                    loom::thread::yield_now();
+                }
+            }
             SOp::RLoad(x) => res = o.atoms[x as usize].load(std::sync::atomic::Ordering::Relaxed) as i64,
             SOp::RStore(x, v) => o.atoms[x as usize].store(v as usize, std::sync::atomic::Ordering::Relaxed),
             SOp::SkipUnlessLast(v, n) => {
